@@ -891,8 +891,12 @@ pub trait StoreFor<T: Storable>: Configurable + private::StoreCallbacks<T> {
     fn resolve_id(&self, id: &str) -> Result<T::HandleType, StamError> {
         if let Some(idmap) = self.idmap() {
             if idmap.resolve_temp_ids && id.starts_with(T::temp_id_prefix()) {
-                if let Some(handle) = resolve_temp_id(id) {
-                    return Ok(T::HandleType::new(handle));
+                if let Some(number) = resolve_temp_id(id) {
+                    let handle = T::HandleType::new(number);
+                    if handle.as_usize() == number {
+                        //(a number that does not fit the handle type does not denote any item)
+                        return Ok(handle);
+                    }
                 }
             }
             if let Some(handle) = idmap.data.get(id) {
